@@ -858,8 +858,14 @@ func (m *ProposalPOLMessage) String() string {
 
 // ValidateBasic performs basic validation.
 func (m *ProposalPOLMessage) ValidateBasic() error {
+	if err := m.ProposalPOL.ValidateBasic(); err != nil {
+		return fmt.Errorf("wrong ProposalPOL: %v", err)
+	}
 	if m.ProposalPOL.Size() == 0 {
 		return ErrEmptyProposalPOL
+	}
+	if m.ProposalPOL.Size() > types.MaxVotesCount {
+		return fmt.Errorf("ProposalPOL bit array is too big: %d, max: %d", m.ProposalPOL.Size(), types.MaxVotesCount)
 	}
 	return nil
 }
@@ -968,6 +974,9 @@ func (m *VoteSetBitsMessage) ValidateBasic() error {
 	}
 	if err := m.BlockID.ValidateBasic(); err != nil {
 		return fmt.Errorf("wrong BlockID: %v", err)
+	}
+	if err := m.Votes.ValidateBasic(); err != nil {
+		return fmt.Errorf("wrong Votes: %v", err)
 	}
 	// NOTE: Votes.Size() can be zero if the node does not have any
 	if m.Votes.Size() > types.MaxVotesCount {
@@ -1397,6 +1406,9 @@ type NewValidBlockMessage struct {
 func (m *NewValidBlockMessage) ValidateBasic() error {
 	if err := m.BlockPartsHeader.ValidateBasic(); err != nil {
 		return fmt.Errorf("wrong BlockPartsHeader: %v", err)
+	}
+	if err := m.BlockParts.ValidateBasic(); err != nil {
+		return fmt.Errorf("wrong BlockParts: %v", err)
 	}
 	if m.BlockParts.Size() == 0 {
 		return ErrEmptyBlockPart
